@@ -308,8 +308,17 @@ def inspect_sublime(root, vocab, context=True):
 
 # ---- generation ------------------------------------------------------------------------------------------------------
 
-def _write_isa(isa, root):
-    """isa: a definition as a dict (written as JSON) or as YAML text (written verbatim)"""
+def _write_isa(isa, root, aged=False):
+    """isa: a definition as a dict (written as JSON) or as YAML text (written verbatim); aged: written under another name with a
+    modification time one hour in the past (a definition file that is older than anything generated so far)"""
+    if aged:
+        import time
+        cfg = os.path.join(root, 'isa_rev_b.yaml' if isinstance(isa, str) else 'isa_rev_b.json')
+        with open(cfg, 'w') as f:
+            f.write(isa) if isinstance(isa, str) else json.dump(isa, f)
+        old = time.time() - 3600
+        os.utime(cfg, (old, old))
+        return cfg
     if isinstance(isa, str):
         cfg = os.path.join(root, 'isa.yaml')
         with open(cfg, 'w') as f:
@@ -366,11 +375,11 @@ def real_isas(acc, idx, n):
             acc.judge(clause=target, nontrivial_distinct=True)
 
 
-def generate_inproc(isa, target, root, verbose=0):
+def generate_inproc(isa, target, root, verbose=0, aged=False):
     world._load()
     from bespokeasm.configgen.vscode import VSCodeConfigGenerator
     from bespokeasm.configgen.sublime import SublimeConfigGenerator
-    cfg = _write_isa(isa, root)
+    cfg = _write_isa(isa, root, aged)
     out = os.path.join(root, 'out')
     os.makedirs(out, exist_ok=True)
     world.reset_globals()
@@ -382,8 +391,8 @@ def generate_inproc(isa, target, root, verbose=0):
     return out
 
 
-def generate_cli(isa, target, root, verbose=0):
-    cfg = _write_isa(isa, root)
+def generate_cli(isa, target, root, verbose=0, aged=False):
+    cfg = _write_isa(isa, root, aged)
     out = os.path.join(root, 'out')
     os.makedirs(out, exist_ok=True)
     env = {k: v for k, v in os.environ.items() if not k.startswith('BESPOKEASM_')}
@@ -403,7 +412,10 @@ def examine(isa, target, vocab, gen, before=None, context=True, verbose=0):
         try:
             if before is not None:
                 gen(before, target, root)
-            out = gen(isa, target, root, verbose)
+                # the second definition comes from another file that is older than the first generation's output
+                out = gen(isa, target, root, verbose, aged=True)
+            else:
+                out = gen(isa, target, root, verbose)
         except SystemExit as e:
             return [f'generator exited: {e.code}']
         except Exception as e:
